@@ -108,6 +108,13 @@ class Distribution(Density, ABC):
         
         # If Geometry dimension is None, update it with the inferred dimension
         if inferred_dim and self._geometry.par_dim is None: 
+            if self.is_cond:
+                # The dimension may still change once the conditioning variables are given: report the
+                # inferred geometry without storing it (conditioned copies share the stored geometry)
+                inferred_geometry = _DefaultGeometry1D(grid=inferred_dim)
+                if self._name:
+                    inferred_geometry._variable_name = self._name
+                return inferred_geometry
             self.geometry = inferred_dim
 
         if self._geometry.par_shape is None:
